@@ -16,7 +16,9 @@ MCVarOptSet(c) == { [DefVariant EXCEPT !.style = s] : s \in Styles }
 CONSTANT Narrow   \* TRUE: at most one variant wider than two fields (quick instance); FALSE: no such restriction
 MCFieldSet(c) ==
   IF NVariants(c) > 0 /\ Narrow /\ ~MayWiden(c) THEN {}
-  ELSE { [DefField EXCEPT !.clone = t] : t \in {Own, Method} }
+  \* the field as a probe or as a shared reference to one (at most one reference field per configuration)
+  ELSE { [DefField EXCEPT !.clone = t, !.ty = y] : t \in {Own, Method},
+           y \in (IF \E v \in 1..NVariants(c) : \E i \in FieldIdx(c, v) : c.variants[v].fields[i].ty = "ref" THEN {"P"} ELSE {"P", "ref"}) }
 \* a struct that educes Copy refuses Clone(method) on its fields (deliberate, S2)
 MCAdmissible(c) == (Narrow => WideOK(c)) /\ ~(c.kind = "struct" /\ HasTrait(c, "Copy") /\ HasCloneMethod(c))
 
@@ -62,4 +64,7 @@ CloneFromIsClone ==
   (Finished /\ run.op = "clone_from") =>
      /\ run.resv = run.b.v
      /\ \A i \in FieldIdx(cfg, run.b.v) : run.res[i][3] = run.b.f[i]
+\* corpus-only exploration (used where only the configurations are wanted, not the run machine): states in which a
+\* run has begun are not expanded
+CorpusOnly == run = NoRun
 =============================================================================
